@@ -9,6 +9,8 @@
      CMD <inface> <name> <pdec> <app> <qdec>   one management Interest (see Model.v cmd)
      OBS none | ctl <code> <cargs> <nexthop|-> | data <name> <version> <kind> <payload> | panic <text> | hang | ...
      TAB <rib> <fib> <strat> <cs> <faces>      the implementation's tables after the command
+     CODECDIFF spec=<args>!impl=<args>       (only if) the repository's parser reads a well-formed ControlParameters (protocol TLV
+                                             numbers) differently from the independent decoder
      LPMBAD <name>><table hops>!=<lookup hops>+..   (only if) a lookup of a FIB entry's own name does not return that entry's next hops
      LIVE <id>=<ok|dead|panic:..>,.. | -       send probe on every harness face after the command
      END
@@ -286,6 +288,7 @@ let () =
                 then model_st := Some mst' else model_st := Some post);
              (* 2. the specification, on the implementation's observations alone *)
              (match obs with
+              | "ctlbad" :: _ -> oracle cln "wire-numbers" ("response-not-readable-with-the-protocol-numbers:" ^ obs_s)
               | "panic" :: rest -> oracle cln "panic" (String.concat "_" rest)
               | ["hang"] -> oracle cln "hang" "-"
               | _ ->
@@ -321,6 +324,8 @@ let () =
                    | None -> ()) (split ',' l)
            | None -> ());
           pending_cmd := None; pending_obs := None
+        | ["CODECDIFF"; l] ->
+          (match !pending_cmd with Some (_, cln) -> oracle cln "wire-numbers" l | None -> ())
         | ["LPMBAD"; l] ->
           (match !pending_cmd with Some (_, cln) -> oracle cln "fib-lookup" l | None -> ())
         | ["END"] -> ()
